@@ -199,6 +199,131 @@ def Hist.view (h : Hist) (p : State) : State :=
              (e.1, { e.2 with unacc := e.1.2.filter (fun a => !(h.accepted e.1).contains a),
                               acc := e.1.2.filter (fun a => (h.accepted e.1).contains a) }) }
 
+/-! ### the exact effect of EVERY operation on balances and on every record's coins
+
+`expDelta`/`expRecord` above describe the three bank sends.  The functions below extend them to all
+ten operations, so that one theorem (`every_op_exact_effect`) can say: a successful operation
+changes every balance and the coins under every record key by exactly this much. -/
+
+/-- expected growth, by the transfers `xs`, of the record stored under ANY key `k`: a bank send
+creates / tops up single-sender records only -/
+def expRecordAt (s : State) (xs : List Xfer) (k : Addr × Suffix) (d : Denom) : Int :=
+  match k.2 with
+  | [f] => expRecord s xs k.1 f d
+  | _ => 0
+
+/-- the record under `k` is one that `accept to froms` completes (and therefore pays and deletes) -/
+def completedAt (s : State) (to : Addr) (froms : List Addr) (k : Addr × Suffix) : Bool :=
+  decide (k.1 = to) && match kvGet s.recs k with
+    | some r => completes froms r
+    | none => false
+
+/-- what a successful `op` does to the balance of `a`, per denom -/
+def Op.expBalDelta (s : State) (op : Op) (a : Addr) (d : Denom) : Int :=
+  match op with
+  | .send _ _ _ | .msend _ _ | .iosend _ _ => expDelta s op.xfers a d
+  | .bsend f t c => (if t = a then Coins.amountOf c d else 0) - (if f = a then Coins.amountOf c d else 0)
+  | .qadd _ _ c p => (if s.holder = a then Coins.amountOf c d else 0) - (if p = a then Coins.amountOf c d else 0)
+  | .accept to froms _ =>
+    (if to = a then expReleased s.recs to froms d else 0) - (if s.holder = a then expReleased s.recs to froms d else 0)
+  | _ => 0
+
+/-- what a successful `op` does to the coins of the record under key `k`, per denom -/
+def Op.expRecDelta (s : State) (op : Op) (k : Addr × Suffix) (d : Denom) : Int :=
+  match op with
+  | .send _ _ _ | .msend _ _ | .iosend _ _ => expRecordAt s op.xfers k d
+  | .qadd to froms c _ => if k = (to, createRecordSuffix froms) then Coins.amountOf c d else 0
+  | .accept to froms _ => if completedAt s to froms k then - Coins.amountOf (coinsAt s k.1 k.2) d else 0
+  | _ => 0
+
+/-! ### per receiver: quarantined for it, released to it, still on record for it -/
+
+def sumRecsFor (to : Addr) : List ((Addr × Suffix) × Record) → Denom → Int
+  | [], _ => 0
+  | (k, r) :: t, d => (if k.1 = to then Coins.amountOf r.coins d else 0) + sumRecsFor to t d
+
+/-- total of the records on file for receiver `to` -/
+def outstandingFor (s : State) (to : Addr) (d : Denom) : Int := sumRecsFor to s.recs d
+
+/-- what the transfers `xs` quarantine for receiver `to` -/
+def expQuarantinedFor (s : State) (xs : List Xfer) (to : Addr) (d : Denom) : Int :=
+  match xs with
+  | [] => 0
+  | x :: rest =>
+    (if quarantines s x.from_ x.to ∧ x.to = to then Coins.amountOf x.amt d else 0) + expQuarantinedFor s rest to d
+
+/-- what a successful `op` quarantines for receiver `to` -/
+def Op.quarantinedFor (s : State) (op : Op) (to : Addr) (d : Denom) : Int :=
+  match op with
+  | .send _ _ _ | .msend _ _ | .iosend _ _ => expQuarantinedFor s op.xfers to d
+  | .qadd t _ c _ => if t = to then Coins.amountOf c d else 0
+  | _ => 0
+
+/-- total quarantined for `to` by the successful operations of the history `ops` from `s` -/
+def quarantinedForRun (s : State) (to : Addr) (d : Denom) : List Op → Int
+  | [] => 0
+  | op :: ops =>
+    (match exec s op with
+      | .ok _ => op.quarantinedFor s to d
+      | .error _ => 0) + quarantinedForRun (step s op) to d ops
+
+/-- what `to`'s balance gained over an operation, counted only when the operation is an accept
+signed by `to` -/
+def Op.observedRelease (op : Op) (before after : Ledger) (to : Addr) (d : Denom) : Int :=
+  match op with
+  | .accept t _ _ => if t = to then Ledger.bal after to d - Ledger.bal before to d else 0
+  | _ => 0
+
+/-- total CREDITED to `to` by its accepts over the history `ops` from `s`, read off the balances
+(a rejected accept changes nothing) -/
+def creditedByReleases (s : State) (to : Addr) (d : Denom) : List Op → Int
+  | [] => 0
+  | op :: ops => op.observedRelease s.bank (step s op).bank to d + creditedByReleases (step s op) to d ops
+
+/-! ### who may be credited: the context bypass
+
+`quarantine.WithBypass(ctx)` switches the quarantine send restriction off.  Its call sites
+(regenerated from the source on every run: `Generated.QuarBypass`, checked in
+`PvProofs.C07Facts`) are the release of accepted funds inside `AcceptQuarantinedFunds` (part of
+`.accept` here) and three functions of the exchange module, which `.bsend` stands for. -/
+
+/-- the operation is a transfer made by the exchange module under the context bypass -/
+def Op.exchangeBypass : Op → Bool
+  | .bsend _ _ _ => true
+  | _ => false
+
+/-- what `a` receives by the transfers `xs` from senders it has on auto-accept (or from itself) -/
+def acceptedCredit (s : State) (xs : List Xfer) (a : Addr) (d : Denom) : Int :=
+  match xs with
+  | [] => 0
+  | x :: rest =>
+    (if x.to = a ∧ getAutoResponse s a x.from_ = .accept then Coins.amountOf x.amt d else 0)
+      + acceptedCredit s rest a d
+
+/-- what `a` pays as a sender of the transfers `xs` -/
+def sentBy (xs : List Xfer) (a : Addr) (d : Denom) : Int :=
+  match xs with
+  | [] => 0
+  | x :: rest => (if x.from_ = a then Coins.amountOf x.amt d else 0) + sentBy rest a d
+
+/-- what `a` is named to receive by the transfers `xs` -/
+def receivedBy (xs : List Xfer) (a : Addr) (d : Denom) : Int :=
+  match xs with
+  | [] => 0
+  | x :: rest => (if x.to = a then Coins.amountOf x.amt d else 0) + receivedBy rest a d
+
+/-- what `a`'s OWN accept releases to it -/
+def Op.ownRelease (s : State) (op : Op) (a : Addr) (d : Denom) : Int :=
+  match op with
+  | .accept to froms _ => if to = a then expReleased s.recs to froms d else 0
+  | _ => 0
+
+/-- what `a` pays by `op` -/
+def Op.paidBy (op : Op) (a : Addr) (d : Denom) : Int :=
+  match op with
+  | .qadd _ _ c p => if p = a then Coins.amountOf c d else 0
+  | op => sentBy op.xfers a d
+
 /-! ### Bool forms, run on the implementation's dumped state -/
 
 def denomsOf (s : State) : List Denom :=
@@ -221,5 +346,26 @@ def strictSorted : List Suffix → Bool
   | [] => true
   | [_] => true
   | a :: b :: rest => sfxLt a b && strictSorted (b :: rest)
+
+/-! ### the clauses the driver evaluates on the implementation's `Simplify` output and on the
+chain's own invariant verdict (moved here from the driver so that theorems can talk about them) -/
+
+/-- clause `simplify_not_sorted_unique` -/
+def simplifySortedUnique (out : List Suffix) : Bool := strictSorted out
+/-- clause `simplify_invented_or_kept_removed`: every output entry was in the input and was not to be removed -/
+def simplifyNothingInvented (rm l out : List Suffix) : Bool := out.all fun x => l.contains x && !rm.contains x
+/-- clause `simplify_lost_suffix`: every input entry not to be removed is in the output -/
+def simplifyNothingLost (rm l out : List Suffix) : Bool := l.all fun x => rm.contains x || out.contains x
+
+/-- the verdict on an implementation `Simplify(rm)` result `out` for the input `l` -/
+def simplifyVerdict (rm l out : List Suffix) : String :=
+  if !simplifySortedUnique out then "fail:simplify_not_sorted_unique"
+  else if !simplifyNothingInvented rm l out then "fail:simplify_invented_or_kept_removed"
+  else if !simplifyNothingLost rm l out then "fail:simplify_lost_suffix"
+  else "ok"
+
+/-- clause `chain_invariant_wrong`: what the chain's `FundsHolderBalanceInvariant` reported
+(`invOk` = not broken) is what "the holder covers the records" says on the denoms `ds` -/
+def chainInvariantAgrees (invOk : Bool) (c : State) (ds : List Denom) : Bool := invOk = holderCoversB c ds
 
 end PvModel.Quar
